@@ -90,6 +90,7 @@ MUTANTS['C09'] = [
 ]
 
 MUTANTS['C10'] = [
+  ('cache-store-shared-by-all-caches', [(C, "class _CacheWrapper:\n    def __init__(self, immutable_warranty: str = 'pickle'):\n        self._serialize, self._deserialize = _get_serialize_and_deserialize(\n            immutable_warranty)\n        self.cache = {}\n", "class _CacheWrapper:\n    cache = {}\n\n    def __init__(self, immutable_warranty: str = 'pickle'):\n        self._serialize, self._deserialize = _get_serialize_and_deserialize(\n            immutable_warranty)\n")]),
   ('cache-keyed-by-raw-negative-index', [(C, "                item = item + len(self)\n                if item < 0:\n                    raise IndexError(_item)\n            try:\n                return self._cache[item]", "                if item + len(self) < 0:\n                    raise IndexError(_item)\n            try:\n                return self._cache[item]")]),
   ('copy-creates-new-cachewrapper', [(C, "        copy._cache = self._cache\n        copy._keep_mem_free = self._keep_mem_free", "        copy._cache = _CacheWrapper()\n        copy._keep_mem_free = self._keep_mem_free")]),
   ('key-path-caches-under-key-string', [(C, "        if isinstance(item, str):\n            item = self.keys().index(item)\n\n        if isinstance(item, numbers.Integral):\n            # numpy integers", "        if isinstance(item, str):\n            if item not in self._cache:\n                value = self.input_dataset[item]\n                if self.check():\n                    self._cache[item] = value\n                return value\n            return self._cache[item]\n\n        if isinstance(item, numbers.Integral):\n            # numpy integers")]),
